@@ -51,7 +51,7 @@ ASSUMPTIONS = [
     "all theorems are about the Lean model Y0.Model.Tian / Y0.Model.TianDsl (tian_id.py after fix 010d659); the tie to the Python is this run's correspondence sampling (structural comparison up to set / multiset order and x*1, x/1; evaluation fall-back on a shared model otherwise)",
     "model class of the theorems and of the oracle: discrete variables, positive rational parameters, independent root latents shared only across bidirected edges (Y0/Spec/Scm.lean); a population tag reads the same single-domain model; G acyclic (MG.Ranked) and well formed (MG.WF)",
     "tian_sound / cfactor_lemma1_sound / cfactor_sound carry the hypothesis ProbShape when Q[T] (Q[H]) is given as a bare Probability: it must be P_w(T u E | Z) - every member of T a child, further children E redundant (E inside Z u w), all variables in one un-starred world w, and Z, w disjoint from T (Y0/Spec/TianSpec.lean; weakened in round 2: redundant children allowed, Z and w need not be nodes). The Lemma-1 branch dispatches on the TYPE of the expression and reads only the parents and the children named in T, so a Probability that equals Q[T] only by numerical coincidence in one model is outside the theorem. cfactor_output_shape + tian_sound_ctftr_caller show that the only caller inside y0 (transport_district_intervening_on_parents) always supplies the shape: its Q[T] is the output of compute_c_factor. The version with the hypothesis quantified over all compatible models instead of ProbShape is OPEN (see the OPEN block in Props/C17.lean: believed true for the single-world environment M.env G; the harness generator semP enumerates every single-world Probability over small graphs, keeps those that denote Q[T] and checks IDENTIFY on them on every run). Sum / Product / Fraction inputs carry no such hypothesis",
-    "starred variables / starred intervention subscripts (+X, counterfactual values) inside a Probability given as Q[T] are outside ProbShape; the harness does not generate them",
+    "starred variables / starred intervention subscripts (+X, counterfactual values) inside a Probability given as Q[T] are outside ProbShape (the spelling -X in event position is inside); the harness does not generate either",
     "completeness ('None only when Q[C] is not identifiable from Q[T]') is not part of the property and not claimed",
     "set iteration order (frozenset of Variables) only affects the order of factors in a Product and of parents in a population-tagged Probability; both are compared as multisets / sets; Python's sorted() ties are modelled by a stable insertion sort",
     "graphs whose exact evaluation would need more than ~2e5 latent x observed assignments (dense bidirected parts on 6-7 nodes) are checked by correspondence and for exceptions only, not by evaluation",
